@@ -338,6 +338,11 @@ def defuse (d : Doc) : Except XErr Unit :=
   | some (ext, decls) =>
     if decls.any Decl.forbiddenDecl || ext then .error .forbidden else .ok ()
 
+/-- the replacement text of `&n;` if this declaration is the internal general entity `n` -/
+def entityValue (n : String) : Decl → Option String
+  | .entity m v => if m == n then some v else none
+  | _ => none
+
 /-- what `etree.XML` (ElementTree's expat parser, which does not load external entities) makes
 of the content: internal general entities are expanded, anything else undeclared is a
 well-formedness error (`ParseError` → FODC0006) -/
@@ -346,7 +351,7 @@ def expand (decls : List Decl) : List Item → Except XErr String
   | .text s :: r => (expand decls r).map (s ++ ·)
   | .predef s :: r => (expand decls r).map (s ++ ·)
   | .ref n :: r =>
-    match decls.findSome? (fun | .entity m v => if m == n then some v else none | _ => none) with
+    match decls.findSome? (entityValue n) with
     | some v => (expand decls r).map (v ++ ·)
     | none => .error .FODC0006
 
